@@ -69,12 +69,16 @@ def popOf : Sexp → Option OSetPtr.POp
   | list [sym "add", int k] => some (.add k.toNat)
   | list [sym "discard", int k] => some (.discard k.toNat)
   | list (sym "iter-rm" :: xs) => some (.iterRm (nats xs))
+  | list (sym "riter-rm" :: xs) => some (.riterRm (nats xs))
   | _ => none
 
 def pstep (s : OSetPtr.Store) (op : Sexp) : OSetPtr.Store × Sexp :=
   match popOf op with
   | some (.iterRm ks) =>
     (OSetPtr.applyP (.iterRm ks) s, ofNats (OSetPtr.iterRem (fun k => decide (k ∈ ks)) s.fresh s (s.next 0)).1)
+  | some (.riterRm ks) =>
+    -- the visit list of the BACKWARD walk, in visiting order
+    (OSetPtr.applyP (.riterRm ks) s, ofNats (OSetPtr.reversedRem (fun k => decide (k ∈ ks)) s.fresh s (s.prev 0)).1)
   | some o => (OSetPtr.applyP o s, sym "ok")
   | none =>
     match op with
